@@ -38,7 +38,7 @@ pub const CORPUS: &[&str] = &[
     "2K4k/8/8/8/B1B5/1B1B4/B1B5/1B1B4 w - - 0 1",
 ];
 
-pub const SOURCES: [&str; 12] = [
+pub const SOURCES: [&str; 13] = [
     "sparse",
     "dense",
     "playout",
@@ -51,6 +51,7 @@ pub const SOURCES: [&str; 12] = [
     "many_queens",
     "corpus_mut",
     "ep_family2",
+    "ep_only_reply",
 ];
 
 fn free_sq(cur: &mut Cursor, p: &RefPos, ok: impl Fn(Sq) -> bool) -> Option<Sq> {
@@ -598,6 +599,73 @@ fn src_corpus_mut(cur: &mut Cursor, p: &mut RefPos) {
     }
 }
 
+/// A double pawn step that gives check where (almost) every reply is an en-passant capture: the
+/// checked king is boxed in by its own men. Yields either that position (side in check, mark set) or
+/// its predecessor (the double step still to be played, so that its SAN needs "+" rather than "#").
+fn src_ep_only_reply(cur: &mut Cursor, p: &mut RefPos) -> bool {
+    let us = Col::W; // the side that is checked by the black pawn
+    let them = Col::B;
+    let f = cur.below(8) as i8;
+    let kf = if f == 0 {
+        1
+    } else if f == 7 {
+        6
+    } else if cur.bool() {
+        f + 1
+    } else {
+        f - 1
+    };
+    let pawn = mk_sq(f, 4).unwrap();
+    let king = mk_sq(kf, 3).unwrap();
+    p.b[pawn as usize] = Some((them, Pc::P));
+    p.b[king as usize] = Some((us, Pc::K));
+    // capturer(s) beside the pawn
+    let mut placed = false;
+    for df in [-1i8, 1] {
+        if let Some(s) = mk_sq(f + df, 4) {
+            if (!placed && (cur.bool() || df == 1)) || cur.chance(60) {
+                p.b[s as usize] = Some((us, Pc::P));
+                placed = true;
+            }
+        }
+    }
+    // box the king in with own men (never on the squares the double step needs)
+    let origin = mk_sq(f, 6).unwrap();
+    let passed = mk_sq(f, 5).unwrap();
+    for d in [(1i8, 0i8), (1, 1), (0, 1), (-1, 1), (-1, 0), (-1, -1), (0, -1), (1, -1)] {
+        if let Some(s) = mk_sq(kf + d.0, 3 + d.1) {
+            if p.b[s as usize].is_none() && s != origin && s != passed && cur.chance(215) {
+                let mut pc = cur.pick(&[Pc::P, Pc::N, Pc::B, Pc::R, Pc::P, Pc::N]);
+                if pc == Pc::P && !pawn_ok(s) {
+                    pc = Pc::N;
+                }
+                p.b[s as usize] = Some((us, pc));
+            }
+        }
+    }
+    // black king far away, a few black pieces that may cover the remaining flight squares / pin a capturer
+    if let Some(bk) = free_sq(cur, p, |s| !adjacent(s, king) && s != origin && s != passed) {
+        p.b[bk as usize] = Some((them, Pc::K));
+    }
+    let n = cur.below(4);
+    for _ in 0..n {
+        let pc = cur.pick(&[Pc::R, Pc::B, Pc::Q, Pc::N]);
+        if let Some(s) = free_sq(cur, p, |s| s != origin && s != passed) {
+            p.b[s as usize] = Some((them, pc));
+        }
+    }
+    p.side = us;
+    p.ep = Some(pawn);
+    let predecessor = cur.bool();
+    if predecessor {
+        p.b[pawn as usize] = None;
+        p.b[origin as usize] = Some((them, Pc::P));
+        p.ep = None;
+        p.side = them;
+    }
+    predecessor
+}
+
 /// Colour flip: mirror ranks, swap colours, side, rights, mark.
 pub fn flip_colors(p: &RefPos) -> RefPos {
     let mut n = RefPos::empty();
@@ -773,6 +841,11 @@ pub fn gen_position_from(cur: &mut Cursor, sel: usize) -> (RefPos, &'static str)
         }
         9 => {
             src_many_queens(cur, &mut p);
+            own_side = true;
+        }
+        12 => {
+            let pred = src_ep_only_reply(cur, &mut p);
+            keep_ep = !pred;
             own_side = true;
         }
         _ => {
